@@ -122,8 +122,9 @@ static int board_preset(const char *name, int flags) {
     int n = atoi(name + 2);
     if (n < 1 || n > 4) return -1;
     for (int i = 0; i < n; i++) {
-      add_relay(1 + 2 * i, 0, i, 0);
-      add_relay(2 + 2 * i, 0, i, 0);
+      /* even shutters carry the recalibrate capability (normally set at registration) */
+      add_relay(1 + 2 * i, 0, i, i % 2 == 0 ? SUPLA_CHANNEL_FLAG_CALCFG_RECALIBRATE : 0);
+      add_relay(2 + 2 * i, 0, i, i % 2 == 0 ? SUPLA_CHANNEL_FLAG_CALCFG_RECALIBRATE : 0);
       fw_board.rs[i].up_relay = 2 * i; fw_board.rs[i].down_relay = 2 * i + 1;
       fw_board.nrs++;
       add_channel(i, SUPLA_CHANNELTYPE_RELAY, SUPLA_BIT_FUNC_CONTROLLINGTHEROLLERSHUTTER | SUPLA_BIT_FUNC_CONTROLLINGTHEFACADEBLIND,
@@ -202,6 +203,9 @@ int main(void) {
         device_init(ops_ntok > 1 ? atoi(ops_tok[1]) : 1);
         inited = 1;
         snapshot(0);
+      } else if (!strcmp(op, "inflags") && ops_ntok == 3 && !inited) {
+        int i = atoi(ops_tok[1]);
+        if (i >= 0 && i < 7) fw_board.inputs[i].flags = atoi(ops_tok[2]);
       } else if (!inited) {
         sdk_out("BADOP");
       } else if (!strcmp(op, "rstimes") && ops_ntok == 6) { /* idx open close tilt tilttype */
@@ -255,6 +259,9 @@ int main(void) {
       } else if (!strcmp(op, "esp")) {
         for (int i = 1; i < ops_ntok && sdk_esp_script_len < SDK_ESP_SCRIPT_MAX; i++)
           sdk_esp_script[sdk_esp_script_len++] = atoi(ops_tok[i]);
+      } else if (!strcmp(op, "inflags") && ops_ntok == 3) { /* before init: flags of board input i */
+        int i = atoi(ops_tok[1]);
+        if (i >= 0 && i < 7) fw_board.inputs[i].flags = atoi(ops_tok[2]);
       } else if (!strcmp(op, "rslog") && ops_ntok == 2) {
         fw_hook_rs_log = atoi(ops_tok[1]);
         for (int i = 0; i < RS_MAX_COUNT; i++)
